@@ -516,7 +516,7 @@ def _far_from_start(spec, j, x, y, params, yscale):
     """data scale, or (linear shapes) the magnitude of the least-squares solution, relative to
     the start parameters"""
     fs = spec["funcs"][j]
-    if yscale >= 1e4:
+    if yscale >= 1e3:
         return True
     if not SHAPES[fs["shape"]][3]:
         return False
@@ -529,7 +529,7 @@ def _far_from_start(spec, j, x, y, params, yscale):
         return False
     if ref is None:
         return False
-    return float(np.max(np.abs(ref))) >= 1e4 * max(1.0, float(np.max(np.abs(fs["p0"]))))
+    return float(np.max(np.abs(ref))) >= 1e3 * max(1.0, float(np.max(np.abs(fs["p0"]))))
 
 
 def check_function(run, spec, j, x, y, params, tag, yscale=1.0):
@@ -545,7 +545,7 @@ def check_function(run, spec, j, x, y, params, tag, yscale=1.0):
         path += "-weighted"
     if fs["constraints"] is not None and _far_from_start(spec, j, x, y, params, yscale):
         # an input class of its own, because the SLSQP path is known to lose the optimum there
-        # (known_findings.json): the data, or the least-squares solution, lie at least 1e4 times
+        # (known_findings.json): the data, or the least-squares solution, lie at least 1e3 times
         # the start parameters (which are of order one) away
         path += "-far-from-start"
     site = f"{path}/{spec['dag']}"
@@ -579,6 +579,15 @@ def check_function(run, spec, j, x, y, params, tag, yscale=1.0):
             dvals = ref_eval(spec, fs["conds"][0], x, params)
         if not np.all(np.isfinite(dvals)) or float(np.min(dvals)) < 0.05:
             run.count("o3_skipped_conditioner_outside_domain")
+            return
+    if fs["shape"] == "asymdecrease3":
+        # a + b / (1 + c x) has a pole at x = -1/c; a fit that ends with the pole between the support
+        # points (seen in the thorough tier: c = -0.31, support up to 26) sits on an objective that
+        # jumps whenever the pole crosses a support point - no neighbourhood to be optimal in
+        with np.errstate(all="ignore"):
+            den = 1.0 + float(p[2]) * np.asarray(x, dtype=float)
+        if np.min(den) <= 0.05 <= np.max(den) or np.min(den) <= 0.0:
+            run.count("o3_skipped_pole_inside_support")
             return
     Ws = objective_weights(fs["weights"], x, y)
     # tolerance classes (calibrated on the repaired tree over 1.6e4 runs, >= 10x the
